@@ -6,6 +6,7 @@ func init() {
 	vRegister("C10Honest", VerifC10Honest)
 	vRegister("C10Forged", VerifC10Forged)
 	vRegister("C10BadLength", VerifC10BadLength)
+	vRegister("C10Reread", VerifC10Reread)
 	vRegister("C10Publish", VerifC10Publish)
 	vRegister("C10Path", VerifC10Path)
 	vRegister("C10ParsePath", VerifC10ParsePath)
@@ -157,6 +158,33 @@ func VerifC10Forged() {
 	}
 	// every tile that was fetched and used is among the saved ones
 	vAssert("all-fetched-saved", len(tr.saved) == len(tr.served))
+}
+
+// VerifC10Reread: a second read through the same reader is authenticated from
+// scratch: whatever is served the second time (every byte free), the read
+// fails or returns true hashes and saves only true tiles.
+func VerifC10Reread() {
+	n, h, st, root, indexes := vTreeAndIndexes()
+	tr := &vTiles{h: h, st: st, badIndex: -1}
+	hr := TileHashReader(Tree{N: int64(n), Hash: root}, tr)
+	_, err := hr.ReadHashes(indexes)
+	vAssert("first-honest-read-ok", err == nil)
+	tr.forged = true
+	first := len(tr.saved)
+	idx2 := []int64{int64(vChoice("index2", len(st)))}
+	hs, err := hr.ReadHashes(idx2)
+	if err != nil {
+		vReach("reread-rejected")
+		vAssert("nothing-saved-on-error", len(tr.saved) == first)
+		return
+	}
+	vReach("reread-accepted")
+	vAssert("reread-hash-is-true", len(hs) == 1 && hs[0] == st[idx2[0]])
+	for i := first; i < len(tr.saved); i++ {
+		truth, err := ReadTileData(tr.saved[i], st)
+		vAssert("saved-tile-exists", err == nil)
+		vAssert("reread-saved-tile-is-true", vSameBytes(tr.savedDat[i], truth))
+	}
 }
 
 // VerifC10BadLength: a truncated or extended tile, or a short result list,
